@@ -47,6 +47,16 @@ func main() {
 			os.Exit(2)
 		}
 		fmt.Print(p.GenFieldTable())
+		progs := []*core.Prog{p}
+		for _, goos := range []string{"darwin", "windows"} {
+			q, err := core.Load(*repo, goos)
+			if err != nil {
+				fmt.Fprintln(os.Stderr, err)
+				os.Exit(2)
+			}
+			progs = append(progs, q)
+		}
+		fmt.Print(core.GenFuncTable(progs))
 		return
 	}
 	if *explain != "" {
